@@ -209,6 +209,17 @@ def r12c(model: Model, rr: RuleResult):
         rr.ok("glyphmap: glyph_name = glyph_order[int(svg_file.stem)] with glyph_order from the source font")
     else:
         rr.bad(g, gm[0], "glyph name is not looked up by the numeric file stem in the source font's glyph order", construct=short(gm[0], 140))
+    srt = [c for c in calls_in(g) if norm(c.func) == "sorted"]
+    if srt and kwarg(srt[0], "key") is not None and ".stem" in norm(kwarg(srt[0], "key")) and kwarg(srt[0], "reverse") is not None and norm(kwarg(srt[0], "reverse")) == "True" \
+            and any(callee_tail(c) == "pop" and not c.args for c in calls_in(g)):
+        rr.ok("inputs are sorted by stem (descending) and consumed from the end: a glyph's .png is immediately followed by its .svg")
+    else:
+        rr.bad(g, g.node, "the .png/.svg files of one glyph are no longer paired by sorting on the file stem", construct="write_glyphmap_for_glyph_svgs: stem sort")
+    asr = [st for st in ast.walk(g.node) if isinstance(st, ast.Assert) and "int(svg_file.stem) == int(bitmap_file.stem)" in norm(st.test).replace("\n", "")]
+    if asr:
+        rr.ok("bitmap and svg of a row are asserted to carry the same gid")
+    else:
+        rr.bad(g, g.node, "bitmap/svg gid agreement is no longer asserted", construct="write_glyphmap_for_glyph_svgs: stem assert")
     cps = kwarg(gm[0], "codepoints")
     if cps is not None and norm(cps) == "()":
         rr.ok("glyphmap rows carry no codepoints (cmap of the input font is kept)")
